@@ -30,7 +30,16 @@ func helperCallsImpl(cl adapt.Client, r *rand.Rand) {
 		case 3:
 			_ = c.GetNativeInterpreter()
 		default:
-			v1client.SetItemCollectionMetrics(c, map[string][]*v1ddb.ItemCollectionMetrics{})
+			// empty, or with entries for the tables the workloads use (what a test that checks the metrics sets up)
+			m := map[string][]*v1ddb.ItemCollectionMetrics{}
+			if r.Intn(2) == 0 {
+				for _, t := range []string{"tba", "tbb", "tbc", "tbl11"} {
+					if r.Intn(2) == 0 {
+						m[t] = []*v1ddb.ItemCollectionMetrics{{SizeEstimateRangeGB: []*float64{new(float64)}}}
+					}
+				}
+			}
+			v1client.SetItemCollectionMetrics(c, m)
 		}
 	case *v2client.Client:
 		switch r.Intn(5) {
@@ -43,7 +52,15 @@ func helperCallsImpl(cl adapt.Client, r *rand.Rand) {
 		case 3:
 			_ = c.GetNativeInterpreter()
 		default:
-			v2client.SetItemCollectionMetrics(c, map[string][]v2types.ItemCollectionMetrics{})
+			m := map[string][]v2types.ItemCollectionMetrics{}
+			if r.Intn(2) == 0 {
+				for _, t := range []string{"tba", "tbb", "tbc", "tbl11"} {
+					if r.Intn(2) == 0 {
+						m[t] = []v2types.ItemCollectionMetrics{{SizeEstimateRangeGB: []float64{0}}}
+					}
+				}
+			}
+			v2client.SetItemCollectionMetrics(c, m)
 		}
 	}
 }
